@@ -86,8 +86,18 @@ thread_local! {
     static IN_TASK_POLL: Cell<bool> = const { Cell::new(false) };
     static STEP_HOOK: RefCell<Option<Box<dyn FnMut()>>> = const { RefCell::new(None) };
     static PROGRESS: Cell<u64> = const { Cell::new(0) };
+    static CASE: Cell<u64> = const { Cell::new(0) };
     static IDLE_WAITERS: RefCell<Vec<(Waker, std::rc::Rc<Cell<bool>>)>> = const { RefCell::new(Vec::new()) };
     static HANG_CLASSIFIER: RefCell<Option<Box<dyn Fn() -> String>>> = const { RefCell::new(None) };
+}
+
+/// The enumeration case of this run (fault plans that are parameters outside the choice stream)
+pub fn case() -> u64 {
+    CASE.with(|c| c.get())
+}
+
+pub fn set_case(c: u64) {
+    CASE.with(|x| x.set(c))
 }
 
 /// Called whenever bytes move on the simulated network (spin detection)
@@ -727,6 +737,7 @@ where
     SPAWNQ.with(|q| q.borrow_mut().clear());
     STEP_HOOK.with(|h| *h.borrow_mut() = None);
     HANG_CLASSIFIER.with(|h| *h.borrow_mut() = None);
+    reset_pending_ops();
     PROGRESS.with(|p| p.set(0));
     IDLE_WAITERS.with(|w| w.borrow_mut().clear());
     crate::net::reset_write_seq();
@@ -868,6 +879,7 @@ pub const OP_DEADLINE: Duration = Duration::from_secs(600);
 /// Await `fut`; if it does not complete within the virtual deadline report a hang
 /// violation naming the operation and return None.
 pub async fn op<T>(what: &str, fut: impl Future<Output = T>) -> Option<T> {
+    let _guard = PendingOp::new(what);
     match tokio::time::timeout(OP_DEADLINE, fut).await {
         Ok(v) => Some(v),
         Err(_) => {
@@ -876,15 +888,49 @@ pub async fn op<T>(what: &str, fut: impl Future<Output = T>) -> Option<T> {
                 "hang",
                 &sig,
                 format!(
-                    "operation `{}` still pending {} virtual seconds after it was issued; alive tasks {:?}",
+                    "operation `{}` still pending {} virtual seconds after it was issued; all pending operations {:?}; alive tasks {:?}",
                     what,
                     OP_DEADLINE.as_secs(),
+                    pending_ops(),
                     alive_tasks(false, None)
                 ),
             );
             None
         }
     }
+}
+
+thread_local! {
+    static PENDING_OPS: RefCell<Vec<(u64, String)>> = RefCell::new(Vec::new());
+    static PENDING_NEXT: Cell<u64> = Cell::new(0);
+}
+
+struct PendingOp(u64);
+
+impl PendingOp {
+    fn new(what: &str) -> Self {
+        let id = PENDING_NEXT.with(|n| {
+            n.set(n.get() + 1);
+            n.get()
+        });
+        PENDING_OPS.with(|p| p.borrow_mut().push((id, what.to_string())));
+        PendingOp(id)
+    }
+}
+
+impl Drop for PendingOp {
+    fn drop(&mut self) {
+        PENDING_OPS.with(|p| p.borrow_mut().retain(|(id, _)| *id != self.0));
+    }
+}
+
+/// Names of the operations issued through `op` that have not completed, oldest first
+pub fn pending_ops() -> Vec<String> {
+    PENDING_OPS.with(|p| p.borrow().iter().map(|(_, w)| w.clone()).collect())
+}
+
+fn reset_pending_ops() {
+    PENDING_OPS.with(|p| p.borrow_mut().clear());
 }
 
 /// Run `fut` with the task group set to `group` during each of its polls
